@@ -126,6 +126,23 @@ def enumerated(tier, seed):
         b = [0, 1] + list(range(n, 2 * n - 2))
         es = sorted({tuple(sorted(p)) for p in combinations(a, 2)} | {tuple(sorted(p)) for p in combinations(b, 2)})
         out.append({"edges": [list(e) for e in es], "m0": n, "rng": {"mode": "seed", "seed": seed}})
+    # necklaces on exactly n vertices, for every n from 8 to 70 and a few around 128 and 256 (a per-vertex bit
+    # position, word or table index runs out at some count): a ring of d "diamonds" -- triangles {p_k, b_k, c_k} and
+    # {b_k, c_k, p_k+1} sharing the edge (b_k, c_k), consecutive diamonds sharing the vertex p_k+1 -- next to a
+    # disjoint K4 / K5 that pads n to 3d + 4 / 3d + 5.  Scanned in label order, the vertices met last are the end
+    # points of a shared edge.
+    for n in list(range(8, 71)) + [127, 128, 129, 130, 255, 256, 257, 258]:
+        q = {0: 0, 1: 4, 2: 5}[n % 3]
+        d = (n - q) // 3
+        for direction in (1, -1):
+            lab = (lambda v: v) if direction == 1 else (lambda v: n - 1 - v)
+            es = [[lab(a), lab(b_)] for a, b_ in combinations(range(q), 2)]
+            for k in range(d):
+                p_, b_, c_ = q + 3 * k, q + 3 * k + 1, q + 3 * k + 2
+                nxt = q + 3 * ((k + 1) % d)
+                for u, v in ((p_, b_), (p_, c_), (b_, c_), (b_, nxt), (c_, nxt)):
+                    es.append([lab(u), lab(v)])
+            out.append({"edges": es, "m0": 5, "rng": {"mode": "seed", "seed": seed + n}})
     return out
 
 
